@@ -187,7 +187,9 @@ func (d *duplexHTTPCall) Read(data []byte) (int, error) {
 
 func (d *duplexHTTPCall) CloseRead() error {
 	d.BlockUntilResponseReady()
-	d.readCloseOnce.Do(func() { close(d.readClosed) })
+	// Draining the response may block for as long as the peer keeps the stream
+	// open, so the context is watched until the drain is over.
+	defer d.readCloseOnce.Do(func() { close(d.readClosed) })
 	verifYield("closeread")
 	if d.response == nil {
 		return nil
